@@ -461,8 +461,8 @@ func (pl *pool) confirm(w *wslot, sp *space, aux string, idx int64, first *failu
 	seen := pl.classSeen[class]
 	if seen >= 3 {
 		pl.repeats[class]++
-		if pl.repeats[class] >= 8 && !pl.isKnown(class) {
-			// a systematic failure: three confirmed cases and eight more deaths of
+		if pl.repeats[class] >= 3 && !pl.isKnown(class) {
+			// a systematic failure: three confirmed cases and three more deaths of
 			// the same class; enumerating the rest of this space only costs time
 			atomic.StoreInt32(&pl.abandon, 1)
 		}
@@ -574,7 +574,7 @@ func (pl *pool) runSpace(sp *space, aux string) {
 	case 1:
 		pl.r.Cap(fmt.Sprintf("soft deadline reached in space %s (%d of %d cases run)", sp.Name, st.Cases, sp.Size))
 	case 2:
-		pl.r.Cap(fmt.Sprintf("space %s abandoned after a systematic worker failure (3 confirmed + 8 further deaths of one class; %d of %d cases run)", sp.Name, st.Cases, sp.Size))
+		pl.r.Cap(fmt.Sprintf("space %s abandoned after a systematic worker failure (3 confirmed + 3 further deaths of one class; %d of %d cases run)", sp.Name, st.Cases, sp.Size))
 	}
 }
 
